@@ -1,6 +1,7 @@
 import YarlProofs.C08
 import YarlProofs.C08Audit
 import YarlProofs.C08Yarl
+import YarlProofs.C08Multi
 /-!
   C08Headline.lean — AUDIT LAYER for property C08.
 
@@ -18,6 +19,10 @@ import YarlProofs.C08Yarl
   of the cache-free specification where a handle IS its value.  `Sem` packs the pure semantics (`construct`, `derive`,
   `prefill`); `yarlSem e` instantiates it with `encode_url` / the accessors of YarlModel/Url.lean (`acc e u name`) on the
   keys `GoodKey e` = input strings inside the guard `GoodAuthority` of property C09.
+
+  The file has two halves: first the single-cache machine above (theorems `C08_headline_*`), then — after a second
+  vocabulary block — the machine with SEVERAL caches, derivations (modifiers), `hash` and comparisons of
+  YarlModel/CacheMulti.lean (theorems `C08_headline_multi_*`, proofs in C08Multi.lean), which closes GAPS 1, 2, 6.
 -/
 set_option linter.unusedVariables false
 set_option linter.unusedSectionVars false
@@ -142,32 +147,251 @@ theorem C08_headline_fails_for_empty_authority :
        .value (some (.ostr (.ok (some [])))), .value (some (.ostr (.ok none)))] :=
   C08_yarl_guard_needed_empty
 
+end Yarl
+
+/-! # The machine with SEVERAL caches, derivations, hashing and comparisons (closes GAPS 1, 2, 6)
+
+  Vocabulary (YarlModel/CacheMulti.lean, namespace `Yarl.MultiCache`; proofs in C08Multi.lean).  The `World` now has ONE
+  heap of objects and, for every cache `i : I` and every GENERATION `g` of that cache, a table, a capacity `caps i g` and the
+  current binding `gen i` of the module global (`cache_configure` REBINDS: it starts generation `gen i + 1`; old tables stay).
+  `Op`s: `.new k` (a cached call; `cacheOf k` says through which cache), `.read h name`, `.hash h` (memoised under
+  `_cache["hash"]`), `.cmp c h1 h2` (`c` one of `==`, `!=`, `<`, `<=`, `>`, `>=`), `.twin h` (pickle / copy),
+  `.mod h m args` (a DERIVATION = modifier `m` on handle `h` with further URL handles `args`: it raises, returns one of
+  its argument OBJECTS, or obtains its result through a cached constructor call, so equal results may be SHARED objects;
+  `cached_property` derivations memoise the result object in the source object), `.clear i`, `.configure i cap`.
+  `Out`: `.handle (.ok parts)` / `.handle (.error exc)` (a new URL or the exception raised), `.value v`, `.dead` (the
+  operation named a handle that denotes no object), `.unit`.  `specRun` / `specStep` / `specHandles` = the cache-free
+  specification in which a handle IS its value (`valOf shs h` = the value of handle `h`, `valsOf` of a list of handles);
+  `sem.modVal m p ps` = the value or exception of derivation `m` on values `p`, `ps`.
+  `yarlMSem e hf` (C08Multi.lean) is the instantiation with the REAL model: objects are the five stored strings `Parts`
+  (`Url.ofParts p` = the `Url` with these parts and nothing pre-computed, `Url.parts u` = its five strings); caches
+  `YCache` = encodeUrl | preEncodedUrl | buildPreEncoded | fromParts | uncached (`from_parts_uncached` and the non-encoded
+  `URL.build`: the cache whose capacity is 0 in reality — the theorems hold for every capacity); keys `YKey e` =
+  `.url k` (`URL(s)`, `k : GoodKey e` inside the C09 guard) | `.encoded s` (`URL(s, encoded=True)`) | `.build a`
+  (`URL.build(**a)`) | `.parts p` (`from_parts`) | `.partsUncached p`; derivations `YMod` = with_scheme, with_user,
+  with_password, with_host, with_port, with_path, with_query, extend_query, update_query, without_query_params,
+  with_fragment, with_name, with_suffix, `/` / joinpath (`makeChild`), parent, origin, relative, join (one URL argument),
+  and `.fn f` (any further function of the URL that ends in `from_parts`); `yapply e m u args` = what the model's modifier
+  computes; accessors = the 34 names of `acc` plus `_sort_key`; `hash p = hf (eqKey (Url.ofParts p))` for an ARBITRARY
+  `hf` (Python's process-dependent tuple hash), `eqKey` = the 5-tuple `__eq__` / `__hash__` / ordering use;
+  `cmpUrl c a b` = the model's `==` … `>=`.
+-/
+namespace Yarl
+open Yarl.Cache (Val acc GoodKey Policy Obj)
+open Yarl.MultiCache Yarl.MultiInst
+
+/-! ## Sentence 1 (several caches) — "no sequence of property reads, method calls, comparisons, hashing, pickling or cache
+    reconfiguration alters the observable state of any existing URL or of any argument passed in." -/
+
+/-- "no sequence of property reads, METHOD CALLS, COMPARISONS, HASHING, pickling or cache reconfiguration alters … any
+    existing URL or … any argument passed in": after ANY program of the multi-cache machine — constructions through any
+    cache, reads, `hash`, the six comparisons, copies, DERIVATIONS (modifiers, with further URL objects as arguments),
+    per-cache clears and rebinding configures — the object with id `id` (be it the receiver, an argument of a derivation
+    or of a comparison, or any other URL) is still there with the same parts.  Every semantics, policy, world; no
+    hypothesis.  Closes GAPS 1 (first half) and the URL-argument part of GAPS 3. -/
+theorem C08_headline_multi_parts_never_change {I Key Mod Err Parts Val : Type} [DecidableEq I] [DecidableEq Key]
+    (sem : MultiCache.Sem I Key Mod Err Parts Val) (pol : I → Policy Key) (w : MultiCache.World I Key Parts Val)
+    (hs : List (Option Nat)) (ops : List (MultiCache.Op I Key Mod)) (id : Nat) (o : Obj Parts Val) :
+    w.heap[id]? = some o →
+    ∃ o', (MultiCache.runWorld sem pol w hs ops).1.heap[id]? = some o' ∧ o'.parts = o.parts :=
+  C08_multi_frame_run sem pol w hs ops id o
+
+/-- "… the observable state of any existing URL" incl. `hash`, comparisons (closes GAPS 6: the composition "`__eq__` /
+    `__hash__` / ordering read only the parts, and parts never change" as a theorem): what `hash(h1)`, `h1 <op> h2` and
+    every accessor on `h1` output for LIVE handles is the same before and after ANY further program `ops`
+    (specification level; by the refinement theorems below also what the implementation outputs). -/
+theorem C08_headline_multi_observable_state_stable {I Key Mod Err Parts Val : Type} [DecidableEq I] [DecidableEq Key]
+    (sem : MultiCache.Sem I Key Mod Err Parts Val) (shs : List (Option Parts)) (ops : List (MultiCache.Op I Key Mod))
+    (c : CmpOp) (h1 h2 : Nat)
+    (hl1 : h1 < shs.length) (hl2 : h2 < shs.length) :   -- the handles exist already (before `ops`)
+    (MultiCache.specStep sem (MultiCache.specHandles sem shs ops) (.hash h1)).2 = (MultiCache.specStep sem shs (.hash h1)).2 ∧
+    (MultiCache.specStep sem (MultiCache.specHandles sem shs ops) (.cmp c h1 h2)).2
+      = (MultiCache.specStep sem shs (.cmp c h1 h2)).2 ∧
+    ∀ name, (MultiCache.specStep sem (MultiCache.specHandles sem shs ops) (.read h1 name)).2
+      = (MultiCache.specStep sem shs (.read h1 name)).2 :=
+  C08_multi_hash_cmp_stable sem shs ops c h1 h2 hl1 hl2
+
+/-! ## Sentence 2 (several caches) — "The outcome (value or exception) of every API call is a function of its arguments
+    only - not of which calls preceded it, the fill state or configured size of the internal caches, or whether an equal
+    URL was created before." -/
+
+/-- The sentence for an abstract multi-cache semantics: for every program, every family of capacities (per cache and
+    generation; 0 and unbounded included), every family of eviction policies and every initial binding of the globals,
+    the implementation's outputs — exceptions included, as `.handle (.error exc)` — are those of the cache-free
+    specification. -/
+theorem C08_headline_multi_history_independent {I Key Mod Err Parts Val : Type} [DecidableEq I] [DecidableEq Key]
+    (sem : MultiCache.Sem I Key Mod Err Parts Val)
+    -- `∀ k p, construct k = .ok p → ∀ nv ∈ prefill k p, nv.2 = attr p nv.1`: what a constructor pre-computes is what the
+    -- accessor (or `hash`) would compute — property C09; needed: C08_multi_prefill_needed (C08Multi.lean)
+    (hp : MultiCache.PrefillOK sem)
+    -- two derivations memoised under the same property name are the same function (in yarl: "parent" and "_origin", one
+    -- derivation each); needed: C08_multi_memo_names_needed (C08Multi.lean)
+    (hn : MemoNamesOK sem)
+    (pol : I → Policy Key) (caps : I → Nat → Option Nat) (gen : I → Nat) (ops : List (MultiCache.Op I Key Mod)) :
+    MultiCache.run sem pol { caps := caps, gen := gen } [] ops = MultiCache.specRun sem [] ops :=
+  C08_multi_history_independent hp hn pol caps gen ops
+
+/-- ALL FOUR shared-object constructors of `_url.py` instantiated with the REAL model (closes GAPS 2, first part, and GAPS 1):
+    `encode_url` (keys inside the C09 guard), `pre_encoded_url`, `URL.build` / `build_pre_encoded_url`, `from_parts`, and
+    `from_parts_uncached`; every modifier of the model as a derivation (`join` with its URL argument; `parent` / `_origin`
+    memoised in the source object); `hash`; the six comparisons; the 34 accessors + `_sort_key`; pickling; per-cache clear and
+    rebinding configure: for every operation sequence, all capacities, policies and initial bindings, the outputs are those
+    of the cache-free specification.  Both side conditions of the abstract theorem are DISCHARGED (`yarl_prefillOK` by
+    C09_eager_eq_lazy, `yarl_memoNamesOK`). -/
+theorem C08_headline_multi_yarl_history_independent (e : Env)
+    (hf : Parts → Int)   -- Python's hash of the 5-tuple: any function
+    (pol : YCache → Policy (YKey e)) (caps : YCache → Nat → Option Nat) (gen : YCache → Nat)
+    (ops : List (MultiCache.Op YCache (YKey e) YMod)) :   -- `.url k` keys carry `k.2 : GoodAuthority e k.1` (C09 guard, GAPS 5)
+    MultiCache.run (yarlMSem e hf) pol { caps := caps, gen := gen } [] ops = MultiCache.specRun (yarlMSem e hf) [] ops :=
+  C08_multi_yarl_history_independent e hf pol caps gen ops
+
+/-- "a function of its arguments only" for METHOD CALLS: a derivation after ANY history outputs exactly what the model's
+    modifier `yapply e m` computes from the VALUES of its receiver and URL arguments (their five parts) — the new URL's
+    parts or the exception; `.dead` only if a handle denotes no object (its creation raised / out of range). -/
+theorem C08_headline_multi_yarl_modifier_function_of_arguments (e : Env) (hf : Parts → Int) (pol : YCache → Policy (YKey e))
+    (caps : YCache → Nat → Option Nat) (gen : YCache → Nat) (ops : List (MultiCache.Op YCache (YKey e) YMod))
+    (h : Nat) (m : YMod) (args : List Nat) :
+    (MultiCache.run (yarlMSem e hf) pol { caps := caps, gen := gen } [] (ops ++ [.mod h m args])).getLast? =
+      some (match valOf (MultiCache.specHandles (yarlMSem e hf) [] ops) h,
+                  valsOf (MultiCache.specHandles (yarlMSem e hf) [] ops) args with
+            | some p, some ps => .handle ((yapply e m (Url.ofParts p) (ps.map Url.ofParts)).map Url.parts)
+            | _, _ => .dead) := by
+  rw [C08_multi_mod_reads_only_parts (yarl_prefillOK e hf) (yarl_memoNamesOK e hf)]
+  generalize valOf (MultiCache.specHandles (yarlMSem e hf) [] ops) h = x
+  generalize valsOf (MultiCache.specHandles (yarlMSem e hf) [] ops) args = y
+  cases x <;> cases y <;> simp only [C08_multi_yarl_modVal]
+
+/-- "a function of its arguments only" for HASHING and COMPARISONS (closes GAPS 6 for the implementation): `hash(url)` —
+    whether answered from `_cache["hash"]` (possibly filled through another handle of a shared object) or computed — and
+    `url1 <op> url2` after ANY history are functions of the five parts: `hf (eqKey …)` resp. the model's comparison. -/
+theorem C08_headline_multi_yarl_hash_and_comparisons (e : Env) (hf : Parts → Int) (pol : YCache → Policy (YKey e))
+    (caps : YCache → Nat → Option Nat) (gen : YCache → Nat) (ops : List (MultiCache.Op YCache (YKey e) YMod))
+    (c : CmpOp) (h1 h2 : Nat) :
+    (MultiCache.run (yarlMSem e hf) pol { caps := caps, gen := gen } [] (ops ++ [.hash h1])).getLast? =
+      some (match valOf (MultiCache.specHandles (yarlMSem e hf) [] ops) h1 with
+            | some p => .value (.hash (hf (eqKey (Url.ofParts p))))
+            | none => .dead) ∧
+    (MultiCache.run (yarlMSem e hf) pol { caps := caps, gen := gen } [] (ops ++ [.cmp c h1 h2])).getLast? =
+      some (match valOf (MultiCache.specHandles (yarlMSem e hf) [] ops) h1,
+                  valOf (MultiCache.specHandles (yarlMSem e hf) [] ops) h2 with
+            | some p1, some p2 => .value (.cmp (cmpUrl c (Url.ofParts p1) (Url.ofParts p2)))
+            | _, _ => .dead) :=
+  C08_multi_yarl_hash_cmp e hf pol caps gen ops c h1 h2
+
+/-- END TO END against the monolithic model ("not of which calls preceded it … or whether an equal URL was created
+    before", for modifier results): `u = URL(s)`, ANY history, `d = u.<modifier>(…)`, ANY history, accessor `name` on `d`:
+    the answer is the accessor on the five parts (`pickleTwin r` = `r` without pre-computed entries) of what the model's
+    modifier computes from `u` itself — whether `d` came out of the `from_parts` cache (shared with other derivations that
+    produced equal parts), was freshly built, is `u` itself, or was found in `u`'s `parent` / `_origin` memo. -/
+theorem C08_headline_multi_yarl_modifier_then_read (e : Env) (hf : Parts → Int) (pol : YCache → Policy (YKey e))
+    (caps : YCache → Nat → Option Nat) (gen : YCache → Nat)
+    (k : GoodKey e)                             -- C09 guard (GAPS 5)
+    (u : Url) (hu : encodeUrl e k.1 = .ok u)    -- `URL(s)` succeeds with model value `u`
+    (ops ops' : List (MultiCache.Op YCache (YKey e) YMod)) (m : YMod)
+    (hm : ∀ f, m ≠ .fn f)                       -- a named modifier of the model (for an arbitrary `.fn f` see GAPS 7)
+    (r : Url) (hr : yapply e m u [] = .ok r)    -- the modifier (no URL argument) succeeds on `u` with model value `r`
+    (name : String) (hname : name ≠ sortKeyName) :   -- an accessor of `acc` (the `_sort_key` read is the `if` branch of C08_multi_yarl_mod_read)
+    (MultiCache.run (yarlMSem e hf) pol { caps := caps, gen := gen } []
+        ((.new (.url k) :: ops) ++ .mod 0 m [] :: ops' ++
+          [.read (MultiCache.specHandles (yarlMSem e hf) [] (.new (.url k) :: ops)).length name])).getLast? =
+      some (.value (.acc (acc e (pickleTwin r) name))) :=
+  C08_multi_yarl_mod_read_model e hf pol caps gen k u hu ops ops' m hm r hr name hname
+
+/-- "not of … the fill state or configured size of the internal caches" for the real multi-cache model: two runs that
+    differ only in the capacities, the eviction policies, the initial bindings and interleaved per-cache
+    `clear` / `configure` operations agree on every other output. -/
+theorem C08_headline_multi_yarl_cache_configuration_unobservable (e : Env) (hf : Parts → Int)
+    (pol pol' : YCache → Policy (YKey e)) (caps caps' : YCache → Nat → Option Nat) (gen gen' : YCache → Nat)
+    (ops ops' : List (MultiCache.Op YCache (YKey e) YMod))
+    (hsame : ops.filter (fun o => !MultiCache.isCacheOp o) = ops'.filter (fun o => !MultiCache.isCacheOp o)) :   -- same non-cache operations
+    MultiCache.nonCacheOuts ops (MultiCache.run (yarlMSem e hf) pol { caps := caps, gen := gen } [] ops) =
+      MultiCache.nonCacheOuts ops' (MultiCache.run (yarlMSem e hf) pol' { caps := caps', gen := gen' } [] ops') :=
+  C08_multi_yarl_cache_config_irrelevant e hf pol pol' caps caps' gen gen' ops ops' hsame
+
+/-- The three CONFIGURABLE string caches `_encode_host`, `_idna_encode`, `_idna_decode` — the only ones
+    `cache_clear()` / `cache_configure()` touch (closes GAPS 2, second part): `strSem o` has `Parts` = the result string,
+    no accessors, no prefill, no derivations; under ANY sequence of calls, per-cache clears and rebinding configures (any
+    sizes, any policy) the outputs are the specification's, and a call after any history returns what the uncached
+    function computes (value or exception). -/
+theorem C08_headline_multi_string_caches (o : Oracles) (pol : SCache → Cache.Policy SKey)
+    (caps : SCache → Nat → Option Nat) (gen : SCache → Nat) (ops : List (MultiCache.Op SCache SKey Empty))
+    (h : Str) (v : Bool) (s : Str) :
+    MultiCache.run (strSem o) pol { caps := caps, gen := gen } [] ops = MultiCache.specRun (strSem o) [] ops ∧
+    (MultiCache.run (strSem o) pol { caps := caps, gen := gen } [] (ops ++ [.new (.host h v)])).getLast? =
+      some (.handle (encodeHost o h v)) ∧
+    (MultiCache.run (strSem o) pol { caps := caps, gen := gen } [] (ops ++ [.new (.idnaEnc s)])).getLast? =
+      some (.handle (idnaEncode o s)) ∧
+    (MultiCache.run (strSem o) pol { caps := caps, gen := gen } [] (ops ++ [.new (.idnaDec s)])).getLast? =
+      some (.handle (idnaDecode o s)) :=
+  ⟨C08_multi_strcaches_history_independent o pol caps gen ops,
+   C08_multi_encode_host_history_independent o pol caps gen ops h v s⟩
+
+/-- The PURE-VALUE caches (`split_netloc`, `make_netloc`, … — closes GAPS 2, last sentence: "unobservable by purity; no
+    theorem says so"): ANY function `f` behind an `lru_cache` (`pureSem f`: one cache, values without accessors) returns,
+    after ANY history of calls / clears / rebindings, under any capacity and policy, what `f` computes (value or
+    exception); instance `split_netloc`. -/
+theorem C08_headline_multi_pure_value_caches {K V Err : Type} [DecidableEq K] (f : K → Except Err V)
+    (pol : Unit → Cache.Policy K) (caps : Unit → Nat → Option Nat) (gen : Unit → Nat)
+    (ops : List (MultiCache.Op Unit K Empty)) (k : K) (o : Oracles) (ops' : List (MultiCache.Op Unit Str Empty))
+    (pol' : Unit → Cache.Policy Str) (s : Str) :
+    MultiCache.run (pureSem f) pol { caps := caps, gen := gen } [] ops = MultiCache.specRun (pureSem f) [] ops ∧
+    (MultiCache.run (pureSem f) pol { caps := caps, gen := gen } [] (ops ++ [.new k])).getLast? = some (.handle (f k)) ∧
+    (MultiCache.run (pureSem (splitNetloc o)) pol' { caps := caps, gen := gen } [] (ops' ++ [.new s])).getLast? =
+      some (.handle (splitNetloc o s)) :=
+  ⟨(C08_multi_pure_cache_history_independent f pol caps gen ops k).1,
+   (C08_multi_pure_cache_history_independent f pol caps gen ops k).2,
+   C08_multi_split_netloc_history_independent o pol' caps gen ops' s⟩
+
 /-
 GAPS:
- 1. OPERATIONS.  The machine has five kinds of operations: cached constructor call, accessor read, pickle/copy, cache_clear,
-    cache_configure.  "method calls, comparisons, hashing" of sentence 1 are NOT operations of the machine: modifiers
-    (with_*, /, join, …), `==`, `<`, `str()` have no `Op`.  In the Lean model they are pure functions returning new
-    values, so "they do not alter an existing URL or an argument" holds by construction of the model, and the link to the
-    source is the single audit fact `Gen.slotWritesOnlyFresh`; there is no theorem about them here.  `__hash__` stores
-    its result in `self._cache["hash"]` — behaviourally a `.read h "hash"`, but "hash" is not among the accessor names
-    `Acc` of the instantiation; the `__setstate__` exemption of the audit is not modelled.
- 2. CONSTRUCTORS / CACHES.  The source has lru_caches on `encode_url`, `pre_encoded_url`, `build_pre_encoded_url`,
-    `from_parts` (these hand out SHARED URL objects), on `split_netloc`, `make_netloc` (pure values), and the three
-    configurable ones `_idna_encode`, `_idna_decode`, `_encode_host` (the only ones cache_clear()/cache_configure()
-    touch).  Instantiated with the real model: `encode_url` (keys inside `GoodAuthority`) and `pre_encoded_url`.  NOT
-    instantiated with `acc`: `build_pre_encoded_url` and `from_parts` (the shared objects behind build() and every modifier);
-    C08_headline_no_prefill_constructors (new) covers them abstractly (any `construct`, any `derive`, no prefill), the
-    concrete `Sem` with the model's `build` / `fromParts` and `acc` is not written down.  The pure-value caches are unobservable by purity; no theorem says so.
- 3. "any argument passed in": nothing in C08 (arguments are immutable `Str` / lists in the model).  For the one mutable
-    argument kind of the real API (a query mapping / MultiDict) see C12 ("the argument is never mutated").
- 4. "(value or exception)": exceptions are values of `Val` / `Out.handle none`, so they are covered by the refinement —
-    but a constructor that raises is not cached in the model (`construct k = none` ⇒ no table entry); that this matches
-    `lru_cache` (exceptions are not cached) is by construction, not a theorem.
+ 1. PARTLY CLOSED by C08_multi_frame_run, C08_multi_yarl_history_independent, C08_multi_yarl_hash_cmp, C08_multi_mod_reads_only_parts +
+    C08_multi_yarl_modVal (C08Multi.lean, machine YarlModel/CacheMulti.lean), see C08_headline_multi_parts_never_change,
+    C08_headline_multi_yarl_history_independent, C08_headline_multi_yarl_modifier_function_of_arguments,
+    C08_headline_multi_yarl_hash_and_comparisons.  The multi-cache machine HAS the operations the five-operation machine lacked:
+    `.mod h m args` (every modifier of the model: with_*, the query modifiers, `/` / joinpath, parent, origin, relative, join),
+    `.cmp` (`==`, `!=`, `<`, `<=`, `>`, `>=`), `.hash` (memoised under `_cache["hash"]`); `str()` was and is the accessor read
+    `.read h "str"`.  Proved: none of them changes the parts of any existing object (receiver or argument), and the output of
+    each after any history is the model's pure function of the values of its handles.
+    STILL OPEN: (a) the link to the SOURCE is still the single audit fact `Gen.slotWritesOnlyFresh`, and the `__setstate__`
+    exemption of that audit is not modelled; (b) WHICH argument object a method returns (`yself`), which modifiers go through
+    `from_parts` vs `from_parts_uncached` (`ycached`) and which are `cached_property`s (`ymemo`) are definitions written by
+    hand in C08Multi.lean, not extracted from `_url.py` (they influence only sharing, which no `Out` observes: object identity
+    `is` is not an observation of the machine); (c) API methods that are neither in `YMod` nor among the 34 accessor names
+    (e.g. `is_absolute()`, `__bool__`, `__repr__`, `__bytes__`) have no operation.
+ 2. CLOSED by C08_multi_yarl_history_independent, C08_multi_strcaches_history_independent, C08_multi_encode_host_history_independent,
+    C08_multi_pure_cache_history_independent, C08_multi_split_netloc_history_independent (C08Multi.lean), see
+    C08_headline_multi_yarl_history_independent, C08_headline_multi_string_caches, C08_headline_multi_pure_value_caches.  The concrete
+    `Sem` `yarlMSem` is written down: `encode_url` (keys inside `GoodAuthority`), `pre_encoded_url`, `build_pre_encoded_url` / `URL.build`
+    (the model's `build`), `from_parts`, `from_parts_uncached`, each with its own table, capacity, policy and generation, one
+    shared heap, accessors `acc`; the three configurable string caches (`strSem`: `_encode_host`, `_idna_encode`, `_idna_decode`
+    with the model's `encodeHost` / `idnaEncode` / `idnaDecode`) with per-cache clear and REBINDING configure; and any pure function
+    behind an lru_cache (`pureSem f`; instance `split_netloc`; `make_netloc` is covered by the generic `f`, no named instance).
+    C08_headline_no_prefill_constructors stays as the abstract single-cache statement.
+ 3. PARTLY CLOSED by C08_multi_frame_run (C08Multi.lean), see C08_headline_multi_parts_never_change: URL-valued arguments (the
+    argument of `join`, the other operand of a comparison — handles in `args` / `h2`) are heap objects of the multi-cache machine
+    and keep their parts under every program.  STILL OPEN as before: non-URL arguments are immutable `Str` / lists in the model, so
+    nothing is stated; for the one mutable argument kind of the real API (a query mapping / MultiDict) see C12 ("the argument
+    is never mutated").
+ 4. PARTLY CLOSED by C08_multi_history_independent (C08Multi.lean), see C08_headline_multi_history_independent /
+    C08_headline_multi_yarl_history_independent: in the multi-cache machine a raising call or derivation outputs
+    `.handle (.error exc)` WITH the exception, so "(value or exception)" is compared exactly (the single-cache machine collapses every
+    constructor exception to `Out.handle none`).  STILL OPEN: a constructor that raises is not cached in the model
+    (`construct k = .error _` ⇒ no table entry); that this matches `lru_cache` (exceptions are not cached) is by construction,
+    not a theorem.
  5. Outside the C09 guard the sentence is FALSE (two `_fails_for_` theorems = F-C09-bracket, F-C09-empty-authority); the
-    exact boundary is `GoodAuthority` — see C09Headline for which input families are proved to lie inside it.
- 6. Observable state is "what accessors in `Acc` (34 names) return"; `__eq__`/`__hash__`/ordering read only the five
-    parts (C09_twin_parts, C10) and are therefore stable by C08_headline_parts_never_change, but this composition is
-    not stated as a theorem.
+    exact boundary is `GoodAuthority` — see C09Headline for which input families are proved to lie inside it.  (Unchanged in
+    the multi-cache machine: its `encode_url` keys `.url k` are the same `GoodKey e`.)
+ 6. CLOSED by C08_multi_hash_cmp_stable, C08_multi_yarl_hash_cmp (C08Multi.lean), see C08_headline_multi_observable_state_stable,
+    C08_headline_multi_yarl_hash_and_comparisons.  `hash` and the six comparisons are operations whose outputs are proved to be
+    functions of the five parts (through `eqKey`), before and after any history.  Observable state is now "what the 34 accessors
+    in `Acc`, `_sort_key`, `hash` and the six comparisons return".
+ 7. NEW.  The end-to-end bridge to the monolithic model, C08_headline_multi_yarl_modifier_then_read, is proved for the NAMED
+    modifiers without URL argument applied to a `URL(s)` result (`hm : ∀ f, m ≠ .fn f`, `args = []`): `join` (URL argument) and
+    `.fn f` are covered only at the level of the five parts (C08_headline_multi_yarl_modifier_function_of_arguments: the result is
+    `yapply` on `Url.ofParts` of the handle values), i.e. without the statement that the `pre` field of the monolithic value is
+    irrelevant to them.
+ 8. NEW.  `hf` (Python's tuple hash) is an arbitrary but FIXED function per run: hash randomisation between processes
+    (pickling to another process) is outside the machine.  Threads: see C20.
 -/
 
 end Yarl
